@@ -163,6 +163,10 @@ type gen struct {
 	params map[string]any
 	nvar   int
 	scope  []Var
+
+	// before: the node variables bound before the MATCH clause that is being generated (an inline property map may
+	// read them: `match (a)-->(b) match (c {rid: id(b)})`)
+	before []string
 }
 
 func (g *gen) feat(f string) { g.feats[f] = true }
@@ -311,6 +315,19 @@ func (g *gen) nodePattern(allowReuse bool, bound map[string]bool) string {
 }
 
 func (g *gen) inlineProp() string {
+	if len(g.before) > 0 && g.chance("iprop-ref", 1, 4) {
+		// the value reads a node bound by an earlier clause
+		b := g.before[g.pick("iprop-refv", len(g.before))]
+		g.feat("inline-props-read-variable")
+		switch g.pick("iprop-refk", 3) {
+		case 0:
+			return "value: id(" + b + ")"
+		case 1:
+			return "name: " + b + ".name"
+		default:
+			return "value: " + b + ".value"
+		}
+	}
 	switch g.pick("iprop", 3) {
 	case 0:
 		return "name: " + g.strLit()
@@ -443,6 +460,11 @@ func (g *gen) match(optional bool) string {
 		g.feat("optional-match")
 	}
 	sb.WriteString("match ")
+	g.before = g.before[:0]
+	for _, v := range g.varsOf(TNode) {
+		g.before = append(g.before, v.Name)
+	}
+	defer func() { g.before = g.before[:0] }()
 	nparts := 1
 	if g.chance("twoparts", 1, 5) {
 		nparts = 2
@@ -993,6 +1015,16 @@ func (g *gen) projection(keyword string, final bool) string {
 					k = it.expr
 				}
 				keys = append(keys, k)
+			case TNode, TRel:
+				// a property (or the id) of a projected entity as sort key
+				k := it.alias
+				if k == "" {
+					k = it.expr
+				}
+				if g.chance("okentity", 1, 3) {
+					keys = append(keys, rapid.SampledFrom([]string{k + ".name", k + ".value", "id(" + k + ")"}).Draw(g.t, "okentitykey"))
+					g.feat("order-by-entity-property")
+				}
 			}
 		}
 		if len(keys) > 0 {
@@ -1001,6 +1033,23 @@ func (g *gen) projection(keyword string, final bool) string {
 			perm := rapid.Permutation(keys).Draw(g.t, "okperm")
 			parts := make([]string, 0, nk)
 			for _, k := range perm[:nk] {
+				if g.chance("okexpr", 1, 6) {
+					// a sort key computed from a projected column
+					g.feat("order-by-expression")
+					typ := TInt
+					for _, it := range items {
+						if it.alias == k || (it.alias == "" && it.expr == k) {
+							typ = it.typ
+						}
+					}
+					form := "%s + 1"
+					if typ == TString {
+						form = rapid.SampledFrom([]string{"toLower(%s)", "toUpper(%s)", "size(%s)"}).Draw(g.t, "okfn")
+					} else {
+						form = rapid.SampledFrom([]string{"%s + 1", "-%s", "%s * 2"}).Draw(g.t, "okfn")
+					}
+					k = strings.Replace(form, "%s", k, 1)
+				}
 				if g.chance("desc", 1, 3) {
 					k += " desc"
 					g.feat("order-desc")
